@@ -440,6 +440,20 @@ impl<'a, T: Read + Write + Seek> PointCloudWriter<'a, T> {
                 ))?
             }
 
+            // Ensure that integer values are inside the range of the prototype entry.
+            // Values outside of it cannot be stored and would be silently changed.
+            match (&p.data_type, value) {
+                (RecordDataType::Integer { min, max }, RecordValue::Integer(v))
+                | (RecordDataType::ScaledInteger { min, max, .. }, RecordValue::ScaledInteger(v)) => {
+                    if v < min || v > max {
+                        Error::invalid(format!(
+                            "Value {v} at index {i} is outside of the range from {min} to {max} defined by the prototype"
+                        ))?
+                    }
+                }
+                _ => {}
+            }
+
             // Update cartesian bounds
             if p.name == RecordName::CartesianX
                 || p.name == RecordName::CartesianY
